@@ -8,6 +8,7 @@ from ..env import gfapy, GfapyError
 from ..runner import Part, Violation
 
 ID = "C06"
+ATHERIS = ['gfa1', 'gfa2']  # parts also driven by libFuzzer in the thorough tier (vf/runner.py: all_parts)
 RULE = ("part 'gfa1': generated GFA1 graphs (segments with LN and/or sequence, links with asymmetric CIGARs over "
         "M/I/D/P in all four orientation pairs incl. self-links, containments at every offset incl. ending at the "
         "container's end, linear / circular / single-segment paths, ID tags present or absent, other tags) "
